@@ -750,12 +750,26 @@ fn emit_with(m: &Module, count: Option<u8>) -> Vec<u8> {
                 locals.push(Ty::I32);
             }
             // run-length groups of equal types
+            // (every other run of length >= 2 is split into 1 + rest, so that adjacent groups of the same
+            // type occur as well)
             let mut groups: Vec<(u32, Ty)> = Vec::new();
             for l in &locals {
                 match groups.last_mut() {
                     Some((n, t)) if *t == *l && count.is_none() => *n += 1,
                     _ => groups.push((1, *l)),
                 }
+            }
+            if count.is_none() {
+                let mut split: Vec<(u32, Ty)> = Vec::new();
+                for (gi, (n, t)) in groups.iter().enumerate() {
+                    if *n >= 2 && (gi + fi) % 2 == 1 {
+                        split.push((1, *t));
+                        split.push((*n - 1, *t));
+                    } else {
+                        split.push((*n, *t));
+                    }
+                }
+                groups = split;
             }
             leb_u(groups.len() as u64, &mut body);
             for (n, l) in &groups {
